@@ -129,7 +129,23 @@ def _which(ri, rj):
     return f"distance {d:.4f} (<=6), normals {an:.3f} deg (<=35), offset {off:.3f} deg (<=45)"
 
 
+def oracle_multimodel(case):
+    from rnaverif.props import c11
+
+    s3 = c11.load_case(case)
+    out, infos = [], []
+    for m in c11.model_numbers(case):
+        ds, info = evaluate(s3, m)
+        out += [D(d.sig, f"model {m}: {d.what}") for d in ds]
+        infos.append(info)
+    case["_info4"] = {k: (min if k == "min_margin" else sum)(i[k] for i in infos) if k != "skipped" else any(i[k] for i in infos)
+                      for k in ("residues", "expected", "one_fail", "reported", "skipped", "min_margin")}
+    return out
+
+
 def oracle(case):
+    if case.get("kind") == "multimodel":
+        return oracle_multimodel(case)
     s3 = c03.load_case(case)
     if case.get("kind") == "steered-stack":
         # self-check of the construction against the reference model: the steered quantity sits where it was put
@@ -174,6 +190,9 @@ def plan(tier, seed):
     specs += [{"kind": "steered", "files": files, "examples": ex, "seed": seed * 1000 + 400 + k} for k in range(n)]
     n, ex = (4, 40) if tier == "quick" else (8, 1500)
     specs += [{"kind": "crowd", "files": files, "examples": ex, "seed": seed * 1000 + 500 + k} for k in range(n)]
+    # several models in one structure object (numbered 1..k, from 0, or otherwise), each annotated by its number
+    n, ex = (4, 15) if tier == "quick" else (8, 300)
+    specs += [{"kind": "multimodel", "files": corpus.SMALL[:8], "examples": ex, "seed": seed * 1000 + 600 + k} for k in range(n)]
     return specs
 
 
@@ -201,6 +220,11 @@ def run_shard(spec) -> ShardResult:
 
         run_hypothesis(PROP_ID, gen3d.st_crowd(files), oracle, seed=spec["seed"], max_examples=spec["examples"],
                        result=res, to_json=c03.to_json, classify=cl)
+    elif spec["kind"] == "multimodel":
+        from rnaverif.props import c11
+
+        run_hypothesis(PROP_ID, c11.st_multimodel(files), oracle, seed=spec["seed"], max_examples=spec["examples"],
+                       result=res, to_json=c03.to_json, classify=lambda c: (classify(c)[0], list(classify(c)[1]) + (["models-numbered-from-0"] if (c.get("model_numbers") or [1])[0] == 0 else [])))
     elif spec["kind"] == "mini":
         run_hypothesis(PROP_ID, gen3d.st_mini(files), oracle, seed=spec["seed"], max_examples=spec["examples"],
                        result=res, to_json=c03.to_json, classify=classify)
